@@ -396,8 +396,8 @@ def mutate_elf(seed, muts):
 
 
 SIG_HANG_MERGE = "hang:cpu-bound:libwild::string_merging::find_string"
-SIG_RSP_RECURSION = ("signal:SIGABRT:libwild::args::ArgumentParser+libwild::args::arguments_from_string+"
-                     "libwild::args::read_args_from_file:stack overflow")
+SIG_HANG_EXTERN = "hang:cpu-bound:libwild::version_script::parse_matcher"
+SIG_RSP_RECURSION = "signal:SIGABRT:libwild::args:stack overflow"
 
 
 def merge_string_far_offset(data):
@@ -593,7 +593,7 @@ def harvest_options(wild):
 # ------------------------------------------------------------------------------------------------
 # Outcome classification
 
-CPU_HANG_SECONDS = 120     # user-mode CPU seconds burnt by one tiny link before it is called a hang
+CPU_HANG_SECONDS = 60      # user-mode CPU seconds burnt by one tiny link before it is called a hang
 WALL_GIVE_UP = 900
 
 
@@ -624,19 +624,42 @@ def proc_tree_cpu(pid):
 
 
 def busy_frame(pids):
-    """Innermost libwild frame of a running (non-parked) thread, via gdb; None if unavailable."""
-    for pid in pids:
+    """The libwild function that owns the loop: the innermost frame common to three stack samples of
+    the busiest running (non-parked) thread, via gdb; None if unavailable."""
+    def sample(pid):
         try:
-            r = subprocess.run(["gdb", "-p", str(pid), "-batch", "-ex", "thread apply all bt 12"], stdout=subprocess.PIPE,
-                               stderr=subprocess.DEVNULL, text=True, timeout=120)
+            r = subprocess.run(["gdb", "-p", str(pid), "-batch", "-ex", "thread apply all bt 60"], stdout=subprocess.PIPE,
+                               stderr=subprocess.DEVNULL, text=True, timeout=180)
         except (OSError, subprocess.TimeoutExpired):
-            continue
+            return None
         for th in re.split(r"\nThread \d+ ", r.stdout):
-            if re.search(r"futex|park|syscall|epoll|\bwait\b|nanosleep|read \(|waitpid", th.split("#2")[0] if "#2" in th else th):
+            head = th.split("#3")[0]
+            if re.search(r"futex|park|syscall|epoll|nanosleep|read \(|waitpid|pthread_cond", head):
                 continue
-            m = re.search(r"in (libwild::[\w:]+)", th)
-            if m:
-                return m.group(1)
+            fns = re.findall(r"^#\d+\s+(?:0x[0-9a-f]+ in )?(libwild::[^\s(]+)", th, re.M)
+            if fns:
+                fns = [re.sub(r"<.*", "", re.sub(r"::\{(impl|closure)#\d+\}", "", f)) for f in fns]
+                # leaf helpers called from a loop are not the loop's owner
+                fns = [f for f in fns if not f.startswith(("libwild::glob_match", "libwild::hash", "libwild::error"))]
+                return list(reversed(fns))      # outermost first
+        return None
+
+    for pid in pids:
+        samples = []
+        for _ in range(3):
+            sm = sample(pid)
+            if sm:
+                samples.append(sm)
+            time.sleep(1)
+        if not samples:
+            continue
+        common = []
+        for frames in zip(*samples):
+            if len(set(frames)) != 1:
+                break
+            common.append(frames[0])
+        if common:
+            return common[-1]
     return None
 
 
@@ -681,8 +704,8 @@ def run_watched(cmd, cwd, env, timeout):
 
 def gdb_crash_frame(argv, d, cycle=False):
     """Re-runs the link under gdb (no fork) and returns the innermost libwild frame at the fatal signal
-    (cycle=True: the sorted set of libwild functions among the innermost 40 frames, for stack overflows,
-    where the innermost frame is an arbitrary point of the recursion)."""
+    (cycle=True, for stack overflows: only its module, because the innermost frame is an arbitrary point of
+    the recursion)."""
     try:
         r = subprocess.run(["gdb", "-batch", "-ex", "run", "-ex", "bt 40", "--args", core.WILD, "--no-fork", *argv], cwd=d,
                            stdout=subprocess.PIPE, stderr=subprocess.DEVNULL, text=True, timeout=300,
@@ -699,7 +722,7 @@ def gdb_crash_frame(argv, d, cycle=False):
     if not fns:
         return None
     if cycle:
-        return "+".join(sorted(set(fns))[:4])
+        return "::".join(fns[0].split("::")[:2])   # module only: the frame is an arbitrary point of the recursion
     return fns[0]
 
 
@@ -748,7 +771,7 @@ class C22(Check):
                    "libFuzzer crash artifacts count only if the real binary reproduces them"]
     quick_cases = 1400
     thorough_cases = 40000
-    case_timeout = 120
+    case_timeout = 60
     fuzz_runs_quick = 4000
     fuzz_runs_thorough = 400000
 
@@ -788,6 +811,14 @@ class C22(Check):
             # in.rsp includes r2.rsp which includes in.rsp: the known unbounded @file recursion
             # (unless a mutation happened to delete the reference; not worth a run to find out)
             return SIG_RSP_RECURSION
+        if fam in ("version", "dynlist"):
+            lst = self._seeds()[fam]
+            text, _ = mutate_text(lst[case["seed"] % len(lst)][1], case["muts"])
+            for m in re.finditer(r"extern", text):
+                brace = text.find("{", m.end())
+                if brace >= 0 and "}" not in text[brace:]:
+                    return SIG_HANG_EXTERN      # unterminated extern block: known endless loop
+            return None
         if fam not in ("elf-obj", "archive"):
             return None
         lst = self._seeds()[fam]
